@@ -228,10 +228,11 @@ pub fn judge(root: &Path, c: &Case) -> Result<(bool, bool), (String, String)> {
 }
 
 /// Metamorphic variant under concurrency: a peer removes one read-marked file X immediately before
-/// call k of the maintenance. Relation to the undisturbed run on an identical population: the
-/// files deleted are those of the reference run plus X, and every file the reference run moved to
-/// the back (other than X) is still moved to the back with its read mark cleared — a file that
-/// vanishes in the middle of a maintenance must not derail the rest of it.
+/// call k of the maintenance. Relation to the undisturbed run on an identical population (X seen)
+/// or on the population without X (X not seen): the files deleted are those of that reference run
+/// plus X, and every file it moved to the back (other than X) is still moved to the back with its
+/// read mark cleared — a file that vanishes in the middle of a maintenance must not derail the
+/// rest of it.
 pub fn judge_vanish(root: &Path, c: &Case, k: u32) -> Result<bool, (String, String)> {
     let base = now_ns() - 10 * DAY;
     let dir = root.join("cache");
@@ -271,8 +272,8 @@ pub fn judge_vanish(root: &Path, c: &Case, k: u32) -> Result<bool, (String, Stri
         let listed = ev.iter().find(|e| e.call == "readdir" && e.ret == 0).map(|e| e.idx).unwrap_or(u32::MAX);
         Ok((gone, restamped, calls, hit, listed))
     };
-    let (gone_ref, restamped_ref, calls, _, listed) = run(None)?;
-    if restamped_ref.len() < 2 || k >= calls || k <= listed {
+    let (gone_ref, restamped_ref, calls, _, _listed) = run(None)?;
+    if restamped_ref.len() < 2 || k >= calls {
         return Ok(false);
     }
     // X: the first file the reference run moved back
@@ -281,19 +282,32 @@ pub fn judge_vanish(root: &Path, c: &Case, k: u32) -> Result<bool, (String, Stri
     if !hit {
         return Ok(false);
     }
-    for g in &gone_ref {
-        if !gone.contains(g) {
-            return Err(("maintenance:vanish-changes-victims".into(), format!("with {} vanishing before call {}, victim {} of the undisturbed run survived", x, k, g)));
+    // Every file is sampled at one instant of the maintenance, so X either was seen (the plan is
+    // the undisturbed one) or was not (the plan is that of the population without X); which of
+    // the two applies at a given k is the implementation's business.
+    let agrees = |gone_ref: &Vec<String>, restamped_ref: &Vec<String>| -> Result<(), (String, String)> {
+        for g in gone_ref {
+            if !gone.contains(g) {
+                return Err(("maintenance:vanish-changes-victims".into(), format!("with {} vanishing before call {}, victim {} of the undisturbed run survived", x, k, g)));
+            }
         }
-    }
-    for g in &gone {
-        if !gone_ref.contains(g) && *g != x {
-            return Err(("maintenance:vanish-changes-victims".into(), format!("with {} vanishing before call {}, {} was deleted although the undisturbed run keeps it", x, k, g)));
+        for g in &gone {
+            if !gone_ref.contains(g) && *g != x {
+                return Err(("maintenance:vanish-changes-victims".into(), format!("with {} vanishing before call {}, {} was deleted although the undisturbed run keeps it", x, k, g)));
+            }
         }
-    }
-    for r in restamped_ref.iter().filter(|r| **r != x) {
-        if !restamped.contains(r) {
-            return Err(("maintenance:vanish-derails-reprieves".into(), format!("with {} vanishing before call {} of the maintenance, spared file {} was not moved to the back of the queue (its read mark is still set)", x, k, r)));
+        for r in restamped_ref.iter().filter(|r| **r != x) {
+            if !restamped.contains(r) {
+                return Err(("maintenance:vanish-derails-reprieves".into(), format!("with {} vanishing before call {} of the maintenance, spared file {} was not moved to the back of the queue (its read mark is still set)", x, k, r)));
+            }
+        }
+        Ok(())
+    };
+    if let Err(seen) = agrees(&gone_ref, &restamped_ref) {
+        // reference for "X was never seen": X is removed before the first call of the maintenance
+        let (gone_wo, restamped_wo, _, hit0, _) = run(Some((0, x.clone())))?;
+        if !hit0 || agrees(&gone_wo, &restamped_wo).is_err() {
+            return Err(seen);
         }
     }
     Ok(true)
